@@ -358,7 +358,12 @@ def t_orthorhombic_rotated(sess, qi, perm0, perm1, signs):
         sess.truncated = True
     reached = False
     keys = ("bulk_modulus", "shear_modulus", "percent_anisotropy", "percent_hexagonal", "percent_tetragonal", "percent_orthorhombic", "percent_monoclinic", "percent_triclinic")
-    for k, p in enumerate(paths):
+    if len(paths) > 12:
+        # the unchanged code has 8 paths (the two frames take the same decisions); many more means the frames disagree:
+        # decide the first dozen with short budgets instead of running every claim on every path into its time-out
+        sess.truncated = True
+    short = dict(timeout_ms=20000)
+    for k, p in enumerate(paths[:12]):
         pt = f"{tag} path {k}"
         if p.exc is not None:
             sess.prove(f"{pt}: raises {type(p.exc).__name__}: {str(p.exc)[:80]}", p.pc, z3.BoolVal(False))
@@ -373,11 +378,11 @@ def t_orthorhombic_rotated(sess, qi, perm0, perm1, signs):
         for _, (arg, res) in sym_sqrt_apps(p):
             rules.square(R(res), R(arg))
         sess.prove(f"{pt}: every reported modulus and percentage is the same in the rotated frame", p.pc,
-                   z3.And(*[eq(out[key][0], out[key][1]) for key in keys]))
-        sess.prove(f"{pt}: rotated frame: monoclinic and triclinic parts vanish", p.pc, z3.And(eq(out["percent_monoclinic"][1], 0), eq(out["percent_triclinic"][1], 0)))
+                   z3.And(*[eq(out[key][0], out[key][1]) for key in keys]), **short)
+        sess.prove(f"{pt}: rotated frame: monoclinic and triclinic parts vanish", p.pc, z3.And(eq(out["percent_monoclinic"][1], 0), eq(out["percent_triclinic"][1], 0)), **short)
         sq = lambda v: R(v) * R(v)  # noqa: E731
         parts = sum((sq(out[key][1]) for key in keys[3:]), R(0))
-        sess.prove_nf(f"{pt}: rotated frame: squared class percentages add up to the squared percent anisotropy", p.pc, rules, [parts], [sq(out["percent_anisotropy"][1])])
+        sess.prove_nf(f"{pt}: rotated frame: squared class percentages add up to the squared percent anisotropy", p.pc, rules, [parts], [sq(out["percent_anisotropy"][1])], **short)
         a0 = [R(v) for v in out["hexagonal_axis"][0]]
         a1 = [R(v) for v in out["hexagonal_axis"][1]]
         conc = all(a.concrete for a in a0 + a1)
